@@ -36,6 +36,7 @@ namespace pika::threads::detail {
             return thread_result_type(thread_schedule_state::terminated, invalid_thread_id);
         }
 
+        PIKA_VERIF_POINT(13, get_thread_id_data(thrd));
         // make sure that the thread has not been suspended and set active again
         // in the meantime
         thread_state current_state = get_thread_id_data(thrd)->get_state();
@@ -125,6 +126,7 @@ namespace pika::threads::detail {
                         "set state for active thread", priority, execution::thread_schedule_hint{},
                         execution::thread_stacksize::nostack);
 
+                    PIKA_VERIF_POINT(14, get_thread_id_data(thrd));
                     create_work(get_thread_id_data(thrd)->get_scheduler_base(), data, ec);
 
                     if (&ec != &throws) ec = make_success_code();
@@ -208,6 +210,7 @@ namespace pika::threads::detail {
                 get_thread_id_data(thrd)->get_description(), get_thread_state_name(new_state),
                 get_thread_state_name(previous_state_val));
 
+            PIKA_VERIF_POINT(11, get_thread_id_data(thrd), static_cast<std::uint64_t>(previous_state_val), static_cast<std::uint64_t>(new_state));
             // So all what we do here is to set the new state.
             if (get_thread_id_data(thrd)->restore_state(new_state, new_state_ex, previous_state))
             {
@@ -234,6 +237,7 @@ namespace pika::threads::detail {
 
             auto* thrd_data = get_thread_id_data(thrd);
             auto* scheduler = thrd_data->get_scheduler_base();
+            PIKA_VERIF_POINT(12, thrd_data);
             scheduler->schedule_thread(thrd, schedulehint, false, thrd_data->get_priority());
             // NOTE: Don't care if the hint is a NUMA hint, just want to wake up
             // a thread.
